@@ -51,6 +51,9 @@ NODES = {
     "foreign": ("extern  \"C\"  {{\n{A}\n{N}\n}}", "fn   qz ( a : u32 ) ;"),
     "field": ("struct  Wf  {{\n{A}\n{N} ,\nother:u32 }}", "qz : Vec< u32 >"),
     "variant": ("enum  Wv  {{\n{A}\n{N} ,\nOther }}", "Qz ( u32 ,u32 )"),
+    # positional fields: of a tuple struct, of a tuple variant
+    "tuplefield": ("struct  Wt ( {A} {N} ,   u32 ) ;", "Vec< qz >"),
+    "tuplevariantfield": ("enum  We  {{ V ( {A} {N} ,   u32 ) , Other }}", "Vec< qz >"),
     "fn_ml": ("{A}\n{N}", "fn   qz ( )  {\n        let  x=1 ;\n  }"),
     "struct_ml": ("{A}\n{N}", "struct   Qz {\n        a : u32 ,\n  b:u32 }"),
     "impl_ml": ("{A}\n{N}", "impl   Qz {\n      fn  f ( ) { }\n   }"),
